@@ -30,7 +30,9 @@ def parseLine (l : Line) : Option Obs := do
          ex := ← flag l.op "ex", serr := ← flag l.op "err", hold := ← flag l.op "hold",
          inv := ← nat l.obs "inv", ret := ← nat l.obs "ret",
          val := ← (kv? l.obs "val").bind optNat, fresh := ← (kv? l.obs "fresh").bind optBool,
-         err := ← (kv? l.obs "err").bind optNat,
+         err := ← (if (kv? l.obs "err") = some "lk" then some none else (kv? l.obs "err").bind optNat),
+         lkerr := (kv? l.obs "err") = some "lk",
+         cx := ← (match kv? l.op "cx" with | none => some 0 | some v => v.toNat?),
          fs := ← (kv? l.obs "fs").bind optNat, fe := ← (kv? l.obs "fe").bind optNat,
          runs := ← nat l.obs "runs", stuck := ← flag l.obs "stuck",
          panicked := (kv? l.obs "panic") = some "1" || (kv? l.obs "panic") = some "2",
@@ -51,6 +53,8 @@ def wellFormed (o : Obs) : Option String :=
 
 def errKindName : Nat → String
   | 1 => "pointer" | 2 => "wrapped" | 3 => "value-typed" | 4 => "typed-nil" | 5 => "not-found" | _ => "?"
+def ctxKindName : Nat → String
+  | 0 => "background" | 1 => "far-deadline" | 2 => "cancelled" | _ => "?"
 def exitKindName : Nat → String
   | 1 => "panic-string" | 2 => "panic-error-value" | 3 => "runtime.Goexit" | _ => "?"
 
@@ -130,7 +134,7 @@ def runSection (r : Report) (s : Section) : Report := Id.run do
       if !o.ran && o.err.isSome then r := r.addCover s!"{via}-joiner-got-leaders-error"
       if o.ran && o.spanic then r := r.addCover s!"{via}-load-panicked"
       if !o.ran && o.panicked then r := r.addCover s!"{via}-joiner-of-panicked-load-panics"
-      if !o.ran && !o.panicked && o.val.isNone && o.err.isNone then r := r.addCover s!"{via}-joiner-of-panicked-load-got-nil"
+      if !o.ran && !o.panicked && o.val.isNone && o.err.isNone && !o.lkerr then r := r.addCover s!"{via}-joiner-of-panicked-load-got-nil"
       if !o.ran && o.val.isSome then
         if h.any (fun l => some l.id = o.val && l.inv < o.ret && o.inv < l.ret && o.inv < l.fe.getD 0) then
           r := r.addCover s!"{via}-joiner-got-leaders-value"
@@ -151,6 +155,10 @@ def runSection (r : Report) (s : Section) : Report := Id.run do
       | none => pure ()
     if o.goexit then r := r.addCover s!"{who}-call-ended-by-goexit"
     if via ≠ "" then r := r.addCover s!"{via}-entry-point-{o.ep}"
+    if o.ep ≥ 2 then r := r.addCover s!"{via}-context-kind-{o.cx}({ctxKindName o.cx})"
+    if o.lkerr && o.cx = 2 then r := r.addCover s!"{via}-cancelled-context-lookup-error"
+    if o.lkerr && o.cx ≠ 2 then r := r.addCover s!"{via}-joiner-got-leaders-lookup-error"
+    if !o.lkerr && o.cx = 2 then r := r.addCover s!"{via}-cancelled-context-joined-a-healthy-flight"
     if o.ran then r := r.addCover s!"{mode}-executed" else r := r.addCover s!"{mode}-shared"
     if o.err.isSome then r := r.addCover s!"{mode}-err-result"
     if o.hold then r := r.addCover s!"{mode}-held"
